@@ -169,12 +169,50 @@ def run(rep: Report, repo: Repo):
         rep.violate('C16.forward', mod, cyc, calls[0] if calls else 'self.c_prop()', 'cycle must forward its inject_cb to c_prop', node=calls[0] if calls else cyc)
 
 
+def untouched_rule(rep, repo):
+    """"Leaving the values untouched changes nothing": with a callback the 2-valued logic is computed by the per-op loop of c_prop, without one by
+    _prop_cpu. The two are siblings: for every opcode both must store the same Boolean function of the operands (16 rows each, from the code of both
+    arms - no oracle involved), and both must have an arm for the same opcodes."""
+    from kvstatic import simtab
+    from checks.c01 import NotLaneWise
+    rep.rule('C16.untouched', 'for every opcode the callback path of c_prop (m == 2) stores the same Boolean function as the callback-free _prop_cpu (sibling arms, 16 rows each)')
+    weights, *_ = simtab.wave_operand_bits(repo)
+    vt = simtab.var_tables(weights)
+    lmod, chains = c01.chains_2v(repo)
+    tabs = {}
+    for cname, fn, d, arrs in chains:
+        resolve_locs(d)
+        t = tabs.setdefault(cname, {})
+        for const, test, body in d.arms:
+            store = [st for st in body if not (isinstance(st, ast.Expr) and isinstance(st.value, ast.Constant))]
+            if const in t or len(store) != 1 or not isinstance(store[0], ast.Assign):
+                continue
+            try:
+                t[const] = (c01.bool_table(store[0].value, d.loc_ins, vt, arrs), store[0], fn)
+            except (NotLaneWise, ModelError):
+                continue        # C01.writers reports an arm that is no lane-wise expression of its operands
+    (na, ta), (nb, tb) = list(tabs.items())[:2]
+    n = 0
+    for const in sorted(set(ta) | set(tb)):
+        if const not in ta or const not in tb:
+            continue            # a missing arm is C01.exhaust
+        n += 1
+        ok = ta[const][0] == tb[const][0]
+        rep.ob('C16.untouched', const, ok, evals=16)
+        if not ok:
+            rows = [r for r in range(16) if ((ta[const][0] ^ tb[const][0]) >> r) & 1]
+            rep.violate('C16.untouched', lmod, tb[const][2], tb[const][1], f'{nb}: the arm for {const} computes {tb[const][0]:#018b}, the arm of {na} computes {ta[const][0]:#018b}: '
+                        f'passing a callback that touches nothing changes the result of every {const} gate on the operand rows {rows}', node=tb[const][1])
+    rep.floor('opcodes compared between the two 2-valued paths', n, 30)
+
+
 def depends(rep, repo):
     """"Overwriting a signal is equivalent to driving it with the overwritten values - every downstream result reflects it and nothing
     else does" rests on every op reading exactly the lines wired to its node's input pins (interface ops: the PI/PPI slot): the operand
     wiring rule of C01 is part of this check."""
     from checks import c01
     c01.wiring_rules(rep, repo)
+    untouched_rule(rep, repo)
     # ... and on the memory map: the location a PO/PPO is captured from must be the location of the line feeding it, and
     # distinct live lines must not share memory (C08 map rules), otherwise an overwrite is not seen downstream or leaks sideways
     from checks import c08
